@@ -61,3 +61,22 @@ Theorem in_domain_needed_lemma : Forall refutes domain_witnesses.
 Proof.
   unfold domain_witnesses. repeat (apply Forall_cons; [unfold refutes; refute|]). apply Forall_nil.
 Qed.
+
+(* ---- lookups agree: `canon` only prunes and sorts the tables; every definition the buses refer to is found in the
+   tables of `canon n` exactly as in those of `n` (so everything computed from the network through its references -
+   signal sizes, computed CAN-IDs, decodings - sees the same definitions after a round trip). *)
+From Acme.C12 Require Import Lemmas ProofsRT1 ProofsRT2 ProofsRT3.
+Definition lookups_agree (n : net) : Prop :=
+  agree type_key (ref_types n) (n_types n) (n_types (canon n)) /\
+  agree unit_key (ref_units n) (n_units n) (n_units (canon n)) /\
+  agree enum_key (ref_enums n) (n_enums n) (n_enums (canon n)) /\
+  agree attr_key (ref_attrs n) (n_attrs n) (n_attrs (canon n)) /\
+  agree node_key (ref_nodes n) (n_nodes n) (n_nodes (canon n)) /\
+  agree builder_key (ref_builders n) (n_builders n) (n_builders (canon n)).
+
+Theorem lookup_agree_lemma : forall n, wfb n = true -> lookups_agree n.
+Proof.
+  intros n H. unfold wfb, wfb_gen in H. destruct (andb8 _ _ _ _ _ _ _ _ H) as (W1 & _). clear H. rename W1 into H.
+  apply nodupb_NoDup in H. destruct (net_ids_tables n H) as (KB & KN & KT & KU & KE & KA).
+  repeat split; apply agree_canon; auto.
+Qed.
